@@ -18,7 +18,7 @@ Proof. exact provided_unmentioned_runs_default. Qed.
 Theorem C15_delegation_is_direct_calls : forall fuel cfg armed s1 m a b,
   is_d_provided m = true -> armed <> 2 ->
   eval_act (S fuel) cfg armed s1 m a b ActDefault =
-  let '(st, ar, r) := direct_calls fuel cfg armed s1 (body_calls a) [] in
+  let '(st, ar, r) := direct_calls fuel cfg armed s1 (body_calls a) in
   (st, ar, match r with inl parts => inl (body_text m a parts) | inr p => inr p end).
 Proof. exact delegation_is_direct_calls. Qed.
 
